@@ -82,6 +82,10 @@ pub fn apply_member(s: &mut SchemaSet, p: &MemberProd, types: &[(String, TypeRef
                     seq.items.push(Particle::Seq(Seq::of(vec![e])));
                     seq.items.push(el(&format!("Sibling{k}"), TypeRef::b("string")));
                 }
+                "choice+sibling" => {
+                    seq.items.push(Particle::Choice(vec![e, el(&format!("Alt{k}"), TypeRef::b("string"))]));
+                    seq.items.push(el(&format!("After{k}"), TypeRef::b("int")));
+                }
                 _ => seq.items.push(Particle::Choice(vec![e, el(&format!("Alt{k}"), TypeRef::b("string"))])),
             }
         }
@@ -127,7 +131,7 @@ pub fn member_productions(types: &[(String, TypeRef)], reduced: bool) -> Vec<Mem
     let occs: Vec<usize> = if reduced { vec![0, 1, 4] } else { (0..6).collect() };
     for &t in &tys {
         for &o in &occs {
-            for ctx in ["sequence", "nested", "choice"] {
+            for ctx in ["sequence", "nested", "choice", "choice+sibling"] {
                 if reduced && ctx != "sequence" && o != 0 {
                     continue;
                 }
